@@ -57,6 +57,9 @@ type apiFault struct {
 	API  string `json:"api"`  // findcoordinator join sync offsetfetch leave
 	Kind string `json:"kind"` // code | drop
 	Code int16  `json:"code,omitempty"`
+	// DelayMs (kind code): the coordinator takes this long before it answers with the error (a failed attempt that itself
+	// lasts about as long as the back-off)
+	DelayMs int `json:"delay_ms,omitempty"`
 }
 
 type groupCase struct {
@@ -148,7 +151,7 @@ func run(tb ev.TB, c groupCase) (labels []string, nontrivial bool) {
 				if f.Kind == "drop" {
 					return &fakecluster.Action{DropBeforeApply: true, Tag: "setup-drop"}
 				}
-				return &fakecluster.Action{ErrorCode: f.Code, Tag: "setup-error"}
+				return &fakecluster.Action{ErrorCode: f.Code, Tag: "setup-error", Delay: time.Duration(f.DelayMs) * time.Millisecond}
 			}
 		}
 		return nil
@@ -988,6 +991,9 @@ func genCase(t *rapid.T) groupCase {
 			f.Code = rapid.SampledFrom([]int16{14, 15, 16}).Draw(t, "code")
 		case "leave":
 			f.Code = rapid.SampledFrom([]int16{15, 16, 25}).Draw(t, "code")
+		}
+		if f.Kind == "code" && (f.API == "join" || f.API == "sync") && rapid.IntRange(0, 2).Draw(t, "slowFailure") == 0 {
+			f.DelayMs = c.BackoffMs + rapid.IntRange(0, c.BackoffMs).Draw(t, "failureDelayMs")
 		}
 		c.SetupFaults = append(c.SetupFaults, f)
 	}
